@@ -1,4 +1,4 @@
 From Coq Require Import Extraction ExtrOcamlBasic.
-From Verif Require Import Lib.Sx Model.Bytes Model.TransferBytes Model.TransferTimed.
-Definition run_main := run_timed.
+From Verif Require Import Lib.Sx Model.Bytes Model.TransferBytes Model.TransferTimed Model.TransferFiles.
+Definition run_main := run_files.
 Extraction "../build/ml/c01.ml" run_main.
